@@ -1661,6 +1661,12 @@ impl SctpInner {
         }
 
         while buf.has_remaining() {
+            // A closed association (peer ABORT / SHUTDOWN-ACK, timeout, local close) handles
+            // nothing any more: neither the rest of this packet nor packets still queued in the
+            // same batch may bring it back (e.g. a COOKIE-ACK behind an ABORT).
+            if *self.state.lock() == SctpState::Closed {
+                break;
+            }
             if buf.remaining() < CHUNK_HEADER_SIZE {
                 break;
             }
